@@ -139,11 +139,14 @@ def features(case):
         if any(s["id"] not in used for s in w["steps"]):
             f.add("dangling-step")
         for s in w["steps"]:
-            if s["scatter"] and "wf" in s["run"] and any(
-                    len(o["src"]) == 1 and "/" not in o["src"][0] for o in s["run"]["wf"]["outputs"]):
-                f.add("scattered-subworkflow-passthrough")
-            if len(s["scatter"]) > 1 and "wf" in s["run"] and s.get("method") == "nested_crossproduct":
-                f.add("scattered-subworkflow-nested-multi")
+            if s["scatter"] and "wf" in s["run"]:
+                sub = s["run"]["wf"]
+                # an output of the subworkflow fed (also) directly by one of its inputs
+                if any(any("/" not in r for r in o["src"]) for o in sub["outputs"]):
+                    f.add("scattered-subworkflow-passthrough")
+                # an inner step that reads no source at all (defaults / constants only)
+                if any(all(not l["src"] for l in st["in"]) for st in sub["steps"]):
+                    f.add("scattered-subworkflow-independent-step")
             if s["scatter"] and s.get("method") == "nested_crossproduct":
                 f.add("nested-crossproduct")
             if len(s["scatter"]) > 1 and s.get("method") in (None, "dotproduct"):
@@ -168,8 +171,9 @@ def diagnose(c, o, clause):
             return "static-checker-single-source-list"
         if e in ("token-not-optional", "invalid-value-none") and "all-non-null" in fs:
             return "all-non-null-single-source-with-null"
-        if "scattered-subworkflow-nested-multi" in fs and e in ("tag-int-valueerror", "failed-workflow-execution", "other"):
-            return "scattered-subworkflow-nested-crossproduct"
+        for cls in ("scattered-subworkflow-independent-step", "scattered-subworkflow-passthrough"):
+            if cls in fs and e in ("tag-int-valueerror", "failed-workflow-execution", "other", "no-suitable-token-processor"):
+                return cls
         if e == "no-suitable-token-processor" and "nested-crossproduct" in fs:
             return "empty-nested-crossproduct"
         if e in ("no-suitable-token-processor", "array-expected") and "merge-flattened" in fs:
@@ -181,8 +185,8 @@ def diagnose(c, o, clause):
         d = diffclass(c, o)
         if "scattered-subworkflow-passthrough" in fs and d in ("elements-missing", "same-elements-different-nesting"):
             return "scattered-subworkflow-passthrough"
-        if "scattered-subworkflow-nested-multi" in fs and d in ("elements-missing", "same-elements-different-nesting"):
-            return "scattered-subworkflow-nested-crossproduct"
+        if "scattered-subworkflow-independent-step" in fs and d in ("elements-missing", "same-elements-different-nesting"):
+            return "scattered-subworkflow-independent-step"
         if "dup-source" in fs and d in ("elements-missing", "value-differs", "elements-differ"):
             return "dup-source-dropped"
         if "nested-crossproduct" in fs and d == "same-elements-different-nesting":
